@@ -110,6 +110,7 @@ func regression(class string, seed int64) []scenario {
 	case "flush-order-serial", "flush-order-tcp":
 		sc := base(class[len("flush-order-"):], true, 4096)
 		sc.Writes = []write{{N: 1000, Flush: true, Hold: 50}, {N: 5}, {N: 6, Flush: true, Hold: 50}, {N: 65535, Flush: true, Hold: 20}}
+		sc.Poll = true
 		add(sc)
 	case "ptt-order":
 		for _, mode := range []string{"serial", "tcp"} {
